@@ -63,13 +63,15 @@ theorem scanScore_isSome (T : Tuning S) (db : Db) (tb : List (Bytes × S)) (term
 
 /-! ### the score map: lookups -/
 
+omit [ScoreOps S] in
 theorem lookup_cons_if (k d : Nat) (s : S) (m : List (Nat × S)) :
     List.lookup k ((d, s) :: m) = if k = d then some s else List.lookup k m := by
   by_cases h : k = d
-  · subst h; simp [List.lookup_cons]
+  · subst h; simp
   · have : (k == d) = false := by simpa using h
     simp [List.lookup_cons, this, h]
 
+omit [ScoreOps S] in
 theorem lookup_none_of_lt {m : List (Nat × S)} {d : Nat} (h : ∀ k ∈ m.map (·.1), d < k) : List.lookup d m = none := by
   induction m with
   | nil => rfl
@@ -108,14 +110,14 @@ theorem lookup_addScore {m : List (Nat × S)} (hs : KeysSorted m) (d : Nat) (x :
           | inr e => have := hs.1 k' e; omega
         rw [hnone]
         by_cases hk : k = d
-        · subst hk; simp [lookup_cons_if]
+        · subst hk; simp
         · simp only [lookup_cons_if (d := d), hk, ↓reduceIte]
       · simp only [hlt, ↓reduceIte]
         have hdd : ¬ d = d' := fun e => hd e.symm
         by_cases hk : k = d'
         · subst hk
           have : ¬ k = d := hd
-          simp [lookup_cons_if, this]
+          simp [this]
         · simp only [lookup_cons_if, hk, hdd, ↓reduceIte]
           exact ih hs.2
 
@@ -306,25 +308,27 @@ theorem lookup_initialScores (T : Tuning S) (db : Db) (idx : Index) (hidx : Buil
 
 /-! ### the map is determined by its lookups -/
 
+omit [ScoreOps S] in
 theorem lookup_isSome_iff_mem (m : List (Nat × S)) (k : Nat) : (List.lookup k m).isSome ↔ k ∈ m.map (·.1) := by
   induction m with
   | nil => simp
   | cons a rest ih =>
     obtain ⟨d, s⟩ := a
     by_cases h : k = d
-    · subst h; simp [lookup_cons_if]
+    · subst h; simp
     · simp [lookup_cons_if, ih, h]
 
+omit [ScoreOps S] in
 theorem keysSorted_ext {m1 m2 : List (Nat × S)} (h1 : KeysSorted m1) (h2 : KeysSorted m2)
     (h : ∀ k, List.lookup k m1 = List.lookup k m2) : m1 = m2 := by
   induction m1 generalizing m2 with
   | nil =>
     cases m2 with
     | nil => rfl
-    | cons b r2 => obtain ⟨d, s⟩ := b; have := h d; simp [lookup_cons_if] at this
+    | cons b r2 => obtain ⟨d, s⟩ := b; have := h d; simp at this
   | cons a r1 ih =>
     cases m2 with
-    | nil => obtain ⟨d, s⟩ := a; have := h d; simp [lookup_cons_if] at this
+    | nil => obtain ⟨d, s⟩ := a; have := h d; simp at this
     | cons b r2 =>
       obtain ⟨da, sa⟩ := a
       obtain ⟨db', sb⟩ := b
@@ -339,7 +343,7 @@ theorem keysSorted_ext {m1 m2 : List (Nat × S)} (h1 : KeysSorted m1) (h2 : Keys
             cases hk with
             | inl e => omega
             | inr e => have := h2.1 k e; omega
-          rw [hn] at e; simp [lookup_cons_if] at e
+          rw [hn] at e; simp at e
         · by_cases hgt : db' < da
           · have e := h db'
             have hn : List.lookup db' ((da, sa) :: r1) = none := by
@@ -349,7 +353,7 @@ theorem keysSorted_ext {m1 m2 : List (Nat × S)} (h1 : KeysSorted m1) (h2 : Keys
               cases hk with
               | inl e => omega
               | inr e => have := h1.1 k e; omega
-            rw [hn] at e; simp [lookup_cons_if] at e
+            rw [hn] at e; simp at e
           · omega
       subst hkey
       have hval : sa = sb := by have e := h da; simpa [lookup_cons_if] using e
@@ -363,6 +367,7 @@ theorem keysSorted_ext {m1 m2 : List (Nat × S)} (h1 : KeysSorted m1) (h2 : Keys
       · have e := h k
         simpa [lookup_cons_if, hk] using e
 
+omit [ScoreOps S] in
 theorem lookup_filterMap_range (f : Nat → Option S) (n k : Nat) :
     List.lookup k ((List.range n).filterMap (fun d => (f d).map (fun s => (d, s)))) = if k < n then f k else none := by
   induction n with
@@ -371,7 +376,7 @@ theorem lookup_filterMap_range (f : Nat → Option S) (n k : Nat) :
     have hlast : List.lookup k ([n].filterMap (fun d => (f d).map (fun s => (d, s)))) = if k = n then f k else none := by
       by_cases hkn : k = n
       · subst hkn
-        cases hf : f k <;> simp [hf, lookup_cons_if]
+        cases hf : f k <;> simp [hf]
       · cases hf : f n <;> simp [hf, lookup_cons_if, hkn]
     rw [List.range_succ, List.filterMap_append, List.lookup_append, ih, hlast]
     by_cases hk : k < n
@@ -384,6 +389,7 @@ theorem lookup_filterMap_range (f : Nat → Option S) (n k : Nat) :
       · have : ¬ k < n + 1 := by omega
         simp [hk, hkn, this]
 
+omit [ScoreOps S] in
 theorem keysSorted_filterMap_range (f : Nat → Option S) (n : Nat) :
     KeysSorted ((List.range n).filterMap (fun d => (f d).map (fun s => (d, s)))) := by
   unfold KeysSorted
@@ -392,7 +398,7 @@ theorem keysSorted_filterMap_range (f : Nat → Option S) (n : Nat) :
   | succ n ih =>
     rw [List.range_succ, List.filterMap_append, List.map_append, List.pairwise_append]
     refine ⟨ih, ?_, ?_⟩
-    · cases hn : f n <;> simp [List.filterMap_cons, hn]
+    · cases hn : f n <;> simp [hn]
     · intro a ha b hb
       simp only [List.mem_map, List.mem_filterMap, List.mem_range, Option.map_eq_some_iff] at ha
       obtain ⟨x, ⟨d, hd, s, _, rfl⟩, rfl⟩ := ha
